@@ -423,6 +423,24 @@ def gen_cv_case(r):
     fn = r.choice(['smul', 'add', 'sub', 'dot', 'combine', 'combine', 'zeros'])
     a = gen_cv(r, dom, keys)
     q = {'op': 'cv', 'fn': fn, 'dom': [list(p) for p in dom], 'a': a}
+    if r.random() < 0.35 and fn != 'zeros':
+        # the vector is built from `a0` and then edited like any dict (a table re-bound, a clique added, one deleted): `a` is what it holds now
+        a0 = [dict(e) for e in a]
+        edits = []
+        for _ in range(r.randint(1, 2)):
+            how = r.choice(['rebind', 'add', 'delete'])
+            if how == 'rebind':
+                i = r.randrange(len(a0))
+                a0[i] = gen_cv(r, dom, [a0[i]['clique']])[0]
+            elif how == 'add' and fn in ('smul', 'combine'):
+                i = r.randrange(len(a))
+                a0 = a0[:i] + a0[i + 1:] if len(a0) > 1 else a0
+            elif how == 'delete' and fn in ('smul', 'combine'):
+                extra = r.sample(names, r.randint(1, min(2, len(names))))
+                if extra not in [e['clique'] for e in a0]:
+                    a0.append(gen_cv(r, dom, [extra])[0])
+            edits.append(how)
+        q['a0'] = a0
     if fn == 'smul':
         q['c'] = r.choice([0, 1, -1, 2, 0.5, -3, math.inf])
     elif fn in ('add', 'sub', 'dot'):
@@ -444,7 +462,18 @@ def gen_cv_case(r):
 
 def cv_apply(q):
     from mbi import Domain, CliqueVector
-    a = cv_impl(q['a'])
+    if 'a0' in q:
+        # construct from a0, then edit the mapping until it holds exactly `a` (in a's key order where Python's dict order allows)
+        a = cv_impl(q['a0'])
+        want = cv_impl(q['a'])
+        for k in [k for k in list(a) if k not in want]:
+            del a[k]
+        for k in want:
+            a[k] = want[k]
+        if list(a) != list(want):
+            a = want       # key order could not be reproduced by edits: fall back to a fresh vector
+    else:
+        a = cv_impl(q['a'])
     fn = q['fn']
     try:
         with np.errstate(all='ignore'):
@@ -547,7 +576,7 @@ def cv_compare(resp, out):
 
 
 def cv_request(q):
-    q2 = dict(q)
+    q2 = {k: v for k, v in q.items() if k != 'a0'}
     for key in ('a', 'b'):
         if key in q:
             q2[key] = [dict(e, vals=[enc_q(v) for v in e['vals']]) for e in q[key]]
@@ -566,6 +595,8 @@ def run_cliquevector(res, drv, tier, seed):
     for q, out, resp in zip(qs, outs, resps):
         res.case(q, len(q['a']) >= 2 or q['fn'] == 'combine')
         res.count('cliquevector:' + q['fn'])
+        if 'a0' in q:
+            res.count('cliquevector edited after construction (re-bound / added / deleted entries)')
         if q['fn'] == 'combine':
             keys = [set(e['clique']) for e in q['a']]
             for e in q['b']:
